@@ -358,6 +358,10 @@ func (vc *FnVC) enterLoop(h *ssa.BasicBlock, li *loopInfo, st *State) {
 		for _, inv := range li.spec.Invariants {
 			vc.assume(vc.trBool(inv.E, env))
 		}
+		for _, a := range li.spec.Assumes {
+			vc.enc.usedAssumptions["axiom instance at loop "+fmt.Sprint(li.ordinal)+" of "+vc.shortName()+": "+a.Src] = true
+			vc.assume(vc.trBool(a.E, env))
+		}
 	}
 }
 
@@ -830,6 +834,16 @@ func (vc *FnVC) splitImpl(ante, cons Expr) []clausePart {
 // is itself a conjunction, substituting arguments syntactically through let-bindings.
 func (vc *FnVC) conjuncts(e Expr, depth int) []Expr {
 	switch n := e.(type) {
+	case *EOld:
+		inner := vc.conjuncts(n.X, depth)
+		if len(inner) <= 1 {
+			return []Expr{e}
+		}
+		var out []Expr
+		for _, c := range inner {
+			out = append(out, &EOld{X: c})
+		}
+		return out
 	case *EBin:
 		if n.Op == "&&" {
 			return append(vc.conjuncts(n.L, depth), vc.conjuncts(n.R, depth)...)
@@ -929,7 +943,9 @@ func (vc *FnVC) emitAxioms() {
 				return
 			}
 			for _, l := range side {
-				vc.enc.header = append(vc.enc.header, l)
+				if !strings.Contains(l, "q$") {
+					vc.enc.header = append(vc.enc.header, l)
+				}
 			}
 			vc.enc.header = append(vc.enc.header, "(assert "+t+")")
 			vc.enc.usedAssumptions["axiom "+ax.Name+": "+ax.Src] = true
